@@ -7,6 +7,22 @@ checks = {
    text="bounded-exhaustive round trips Encoder->Decoder in both directions and all 8 encoder modes: every byte string <=4/5 over a 16-symbol alphabet + threshold family around 4096, every mailbox name <=4/5 runes, 239 flags/attributes incl. malformed, boundary numbers, every number set of <=3 insertions, every list tree <=5/6 nodes + depth chains around the cap; oracle: value equality modulo documented canonicalisations, exact consumption (independent scanner), refusals write nothing, byte legality for the mode",
    note="independent wire scanner (no imapwire import); negative int64 and 8-bit flag acceptance excluded; sync-literal handshake belongs to C18",
    technique="bounded-exhaustive input x configuration enumeration on the real codec with inverse-pair and independent-scanner oracles"),
+ "C02": dict(level=EX, design="DESIGN.md §4 C02",
+   text="one real client <-> one real server connection (recording stub backend), 7 capability/enablement configurations, 58 k cases per configuration (533 k thorough): every string position of every command x a special-string alphabet (+ all pairs), all option subsets (STATUS, LIST select/return, FETCH attributes x 144 section shapes, SEARCH return), every number set of <=3 insertions, search-criteria trees with <=2 leaves over 31 leaf kinds under Not/Or nesting; oracle: the recorded backend call equals the issued call semantically (search criteria compared as predicates with the reference matcher over the message universe)",
+   note="strings above the server's declared 4096-byte limit are counted, not judged; illegal arguments enumerated but not judged",
+   technique="bounded-exhaustive input x configuration enumeration on the real client/server pair vs semantic-equality oracle"),
+ "C03": dict(level=EX, design="DESIGN.md §4 C03",
+   text="one real client <-> one real server whose stub backend writes generated data through the real writer API: 658 k cases x 3 configurations (4.07 M thorough): FETCH attribute subsets, 1-3 body sections with literal sizes around 4096, envelopes (full presence product), all body-structure trees <=5 (6-7) nodes, LIST/LIST-STATUS, STATUS, SELECT, SEARCH/ESEARCH, APPENDUID, COPYUID, MOVE, NAMESPACE, capabilities, expunges, unilateral updates; oracle: equality modulo the protocol's canonicalisations (listed as assumptions), literals byte-identical, order preserved",
+   note="RFC 2047 look-alike strings excluded; 22 canonicalisations/assumptions recorded in the evidence",
+   technique="bounded-exhaustive enumeration of response data structures on the real server/client pair vs canonical-equality oracle"),
+ "C04": dict(level=EX, design="DESIGN.md §4 C04",
+   text="971 k raw byte streams (9.2 M thorough) into a real server connection: sequences of <=2 (3) commands from 600 variants (12 templates x atom/quoted/{n}/{n+} x sizes {0,1,4096,4097,100 MiB(+1)} x payload classes incl. command-like text x announced>actual / junk tails, AUTHENTICATE and IDLE exchanges) x 3 capability sets x 3 start states x pipelined or not x waits for '+' or not; oracle: whole well-formed responses, exactly the framed commands answered once each in order, no smuggled marker ever executed or delivered elsewhere, '+' only for accepted synchronising literals / AUTHENTICATE / IDLE, refused non-sync literals discarded or connection closed",
+   note="recording stub backend; unique marker per smuggled text",
+   technique="bounded-exhaustive input x configuration enumeration on the real server with an independent response tokenizer"),
+ "C06": dict(level=FE, design="DESIGN.md §4 C06",
+   text="for 27 valid multi-command transcripts every byte offset x {EOF, reset}, every server write call failing, NewSession failing; 109 k single-position mutations/truncations of 60 valid lines, 24 k (331 k) raw strings, the C04 stream family, nesting families up to 10^6 in memory-limited workers; oracle: no panic, server closes and forgets the connection, every Idle returns, backend Close exactly once, no buffered literal > 4096, no APPEND > limit accepted, nesting refused",
+   note="IDLE runs free with exact quiescence (stub signals the driver); 30 s watchdog hits are re-run 3x before being reported",
+   technique="exhaustive fault-point enumeration (every byte offset / write call of each transcript) + bounded-exhaustive malformed-input enumeration on the real server"),
  "C05": dict(level=MC, design="DESIGN.md §4 C05",
    text="explicit-state BFS (to closure) of the connection state machine on the real server over 12 configurations x 4 session variants x 82 events, every transition executed on the real code against an RFC 9051 reference model (permitted-state table, TLS/InsecureAuth policy, response class, capability lists, Close exactly once); plus all un-deduplicated histories of depth 2 everywhere and depth 3 (4 thorough) in default configurations",
    note="real crypto/tls over the in-memory network; BAD/NO both accepted where the RFC leaves the class open; dedup key = reference state, soundness backed by a behaviour-function table and the un-deduplicated runs",
@@ -23,6 +39,10 @@ checks = {
    text="the real client runs under a controlled scheduler (all goroutines, locks, channels and the connection instrumented); for each of 40 transcripts and every byte offset of the server stream the connection is cut with EOF / read error / stall+read-timeout / stall+Close, and a write error is injected at every client write call; within each fault scenario every schedule up to the deviation bound is executed; the scheduler itself decides termination (all threads finished) - no clock",
    note="scripted peer; caller honours the streaming contract; STARTTLS transcripts excluded (crypto/tls is not instrumented); bound 0 quick / 1 thorough with a per-scenario execution cap that is reported",
    technique="stateless model checking of the implementation: exhaustive fault-point enumeration x deviation-bounded schedule exploration under a controlled scheduler"),
+ "C11": dict(level=EX, design="DESIGN.md §4 C11",
+   text="260 k distinct server byte streams (2.6 M thorough) x 6 client variants (21 pending commands of every kind, unilateral handlers, no handlers, IDLE, greeting): exhaustive expansion of a 623-production response grammar, all single-token and single-byte mutations and truncations, raw strings, growth families up to 512 k; every accessor of every returned value called; worker subprocesses attribute process-fatal panics, stack overflows and OOM; oracle: no panic anywhere, protocol-invariant violations surface as errors not data, allocations/reads grow <= 2.5x per doubling",
+   note="known finding: SearchData.AllSeqNums materialises '1:4294967295' (API design); CPU-time growth only reported at >= 6x per doubling",
+   technique="bounded-exhaustive grammar/mutation enumeration on the real client in resource-limited worker processes"),
  "C12": dict(level=MC, design="DESIGN.md §4 C12",
    text="the real client under the controlled scheduler against every server behaviour in a bounded family: pipelines of <=2 (3) pairwise-unambiguous commands from 19 kinds x outcome assignment {OK, OK [code], NO, NO [code], BAD} x every interleaving of all response lines that respects per-command order (RFC 9051 §5.5), in authenticated and selected start states, plus every sequence of <=3 (4) unilateral responses in 4 contexts; after EVERY server line the system runs to scheduler-decided quiescence and State()/Mailbox() are compared with a reference transcript interpreter; per command status+data comparison; final NOOP must succeed",
    note="default schedule only (schedules are C13's subject); summary not compared while a SELECT is in flight; scripted peer",
